@@ -59,6 +59,24 @@ class Callable_:
         return ("m", self.a, z)
 class CallableChild(Callable_):
     pass
+def make_counter():
+    n = 0
+    def counter(step=0):
+        nonlocal n
+        n += step
+        return ("count", n)
+    return counter
+class Mutable:
+    def __init__(self, a=1):
+        self.a = a
+    def bump(self, k):
+        self.a += k
+        return self.a
+    def m(self, z):
+        return ("m", self.a, z)
+class MutableCallable(Mutable):
+    def __call__(self, x):
+        return ("called", self.a, x)
 '''
 
 
@@ -219,11 +237,77 @@ def main(tier):
                          f"{({k: ref[k] for k in diff})}", case)
                 if not keep:
                     break
+    # ---- histories on ONE wrapper: it is sent (pickled) several times and the wrapped object
+    # changes in between; what arrives must behave like the object at the time of that send
+    def observe(kind, x):
+        if kind == "counter":
+            return ("callable", callable(x), x(0) if callable(x) else None)
+        out = [("callable", callable(x))]
+        try:
+            out.append(("a", x.a))
+        except BaseException as e:      # noqa
+            out.append(("a", type(e).__name__))
+        try:
+            out.append(("m", x.m(8)))
+        except BaseException as e:      # noqa
+            out.append(("m", type(e).__name__))
+        if callable(x):
+            out.append(("call", x(5)))
+        return tuple(out)
+
+    def mutate(kind, target, k):
+        if kind == "counter":
+            target(k)
+        else:
+            target.bump(k)
+
+    nh = 0
+    makers = [("counter", lambda: ns["make_counter"](), False),
+              ("Mutable", lambda: ns["Mutable"](2), False),
+              ("MutableCallable", lambda: ns["MutableCallable"](3), False),
+              ("Mutable", lambda: None, True), ("MutableCallable", lambda: None, True)]
+    OPS = ["send", "mutate-object", "mutate-through-wrapper"]
+    for (kind, make, via_class), keep in itertools.product(makers, [True, False]):
+        for L in (2, 3, 4):
+            for hist in itertools.product(OPS, repeat=L):
+                if "send" not in hist[1:] or not any(o != "send" for o in hist):
+                    continue
+                if via_class and "mutate-object" in hist:
+                    continue        # a class-wrapper instance has no separate bare object
+                nh += 1
+                n += 1
+                case = ("history", kind, "class-wrapper" if via_class else "object", keep, hist)
+                try:
+                    if via_class:
+                        w = wrap(ns[kind], keep_wrapper=keep)(4)
+                        obj = w
+                    else:
+                        obj = make()
+                        w = wrap(obj, keep_wrapper=keep)
+                    for i, op in enumerate(hist):
+                        if op == "mutate-object":
+                            mutate(kind, obj, i + 1)
+                        elif op == "mutate-through-wrapper":
+                            mutate(kind, w, 10 * (i + 1))
+                        else:
+                            got = observe(kind, pickle.loads(pickle.dumps(w)))
+                            exp = observe(kind, obj)
+                            if got != exp:
+                                viol(f"stale-after-change:{kind}:{'class' if via_class else 'object'}",
+                                     f"send #{i + 1} of the same wrapper delivers {got} while the "
+                                     f"wrapped object now is {exp}", case)
+                                break
+                except BaseException as e:      # noqa
+                    viol(f"history-raised:{type(e).__name__}", f"{e!r}", case)
     rep.coverage = dict(
+        wrapper_histories=nh,
         evaluations=n, distinct_nontrivial=n, samples=samples or [{"none": True}], exhaustive=True,
         rule="product of {6 function kinds, 5 instance kinds} x keep_wrapper x round trips "
              "{1,2,3} x outer wrapper {none, keep, no-keep}, plus {5 classes} x keep_wrapper x "
-             "round trips for class wrappers; every case distinct; behaviour = callable flag, "
+             "round trips for class wrappers; all histories of length 2-4 over {send, change the "
+             "object, change it through the wrapper} on one wrapper of 3 stateful kinds (and 2 "
+             "class-wrapper instances): each send delivers the state of that moment; every case "
+             "distinct; behaviour = callable flag, "
              "call results on probes, attribute reads (incl. a property), a method call")
     rep.assumptions = ["objects live in an unimportable module namespace, like a script's __main__"]
     code = rep.finish()
